@@ -148,3 +148,16 @@ prop( 'C10', [ 'G-BOUND', 'G-REF', 'R-LIMIT', 'R-SENT', 'R-REPEAT', 'G-PRIMS' ],
                   'forward/compare it does.',
       technique='reference resolution over extracted grammar graphs; boundedness analysis with a consumption model; AST idiom matching and '
                 'CFG effect counting on the framework' )
+
+prop( 'C09', [ 'R-LOCK-1', 'R-LOCK-2', 'R-LOCK-3', 'R-LOCK-4', 'R-LOCK-5', 'R-ISO', 'R-SNAPSHOT', 'P-CLOSURE' ],
+      decides='lock-discipline clauses.  R-LOCK-1: every <m>.run( source=... ) on a state machine outside automata.py happens while <m> is '
+              'held by an enclosing `with ... as <m>` (client.__next__\'s self.frame.run is dominated by self.frame.safe() in a class whose '
+              '__enter__/__exit__ delegate to the frame) - covers every interleaving of every number of sessions; R-LOCK-2: class-level '
+              'shared parsers are extended only by register_service_parser; R-LOCK-3: UCMM.sessions is mutated (and its uniqueness test '
+              'made) only under UCMM.lock; R-LOCK-4: every object construction, setup_tag call and setup.ucmm store of logix.setup is '
+              'inside `with setup.lock`; R-LOCK-5: dfa_post keeps closures per thread ident, pops them under the lock and invokes them '
+              'outside it, after super().__exit__ released it; dfa_base acquires/releases, run() checks safe(); R-ISO: per-connection '
+              'source/data/machine are locals created per call; R-SNAPSHOT: element ranges are read/written by single list operations.',
+      not_decided='linearizability, absence of lost updates between two writers of the same elements, fairness (properties of histories/schedules).',
+      technique='lock-set style who-holds-what rules over call sites (AST + dominance); field-to-lock tables',
+      thorough_rules=[] )
